@@ -92,7 +92,7 @@ def _d(seed, label):
     return int.from_bytes(hashlib.sha256(b"c19/%d/%s" % (seed, label.encode())).digest(), "big") % (M.N - 2) + 1
 
 
-OPS = ["sm2_keygen", "sm2_sign", "sm2_sign_ctx", "sm2_decrypt", "sm2_decrypt_bad", "sm2_ecdh", "sm2_import_der", "sm2_import_bad", "sm2_import_mismatch",
+OPS = ["sm2_keygen", "sm2_sign", "sm2_sign_ctx", "sm2_decrypt", "sm2_decrypt_bad", "sm2_ecdh", "sm2_import_der", "sm2_import_bad", "sm2_import_mismatch", "tls_ctx_keys", "tls_ctx_keys",
        "pkcs8_open", "pkcs8_wrong_password", "sm9_sign", "sm9_decrypt", "sm9_keygen",
        "hs_tlcp", "hs_tls12", "hs_tls13", "hs_tlcp_mutual", "hs_tls12_mutual", "hs_tls13_mutual",
        "hs_tlcp_untrusted", "hs_tls12_untrusted", "hs_tls13_untrusted", "hs_tls12_badclient",
@@ -287,6 +287,49 @@ def ops(case, ctx):
                         dll.vh_fclose(fp)
                     if r == 1:
                         ctx.note("mismatch-imported")      # C12's business; the error path was not reached in this case
+                elif op == "tls_ctx_keys":
+                    # loading certificate chains and password-protected keys into a TLS_CTX: success and every refusal (wrong
+                    # password, key that does not match its certificate, missing file, single-certificate chain for TLCP)
+                    tlcp = (seed >> 3) & 1
+                    scen = ["ok", "wrong-sign-password", "wrong-enc-password", "sign-key-mismatch", "enc-key-mismatch", "missing-key-file",
+                            "one-cert-chain", "swapped-keys"][seed % 8]
+                    ch, files = _pki("tlcp" if tlcp else "tls12", "server")
+                    ds, de = ch.keys["leaf"][0], (ch.keys["enc"][0] if tlcp else None)
+                    other = _d(seed, "other")
+                    pw_s, pw_e = b"Sign-pass-%d" % seed, b"Enc-pass-%d" % seed
+                    secrets = {"sign key password": pw_s, "server sign key": M.i2b(ds), "foreign key": M.i2b(other)}
+                    if tlcp:
+                        secrets["enc key password"] = pw_e
+                        secrets["server enc key"] = M.i2b(de)
+                    tmpd = os.path.join(B.BUILD, "tmp", "c19_%d_ctx" % os.getpid())
+                    os.makedirs(tmpd, exist_ok=True)
+
+                    def wr(name, data):
+                        pth = os.path.join(tmpd, name)
+                        open(pth, "wb").write(data)
+                        return pth.encode()
+                    skey = (other, M.pub_of(other)) if scen == "sign-key-mismatch" else ch.keys["leaf"]
+                    if tlcp:
+                        ekey = (other, M.pub_of(other)) if scen == "enc-key-mismatch" else ch.keys["enc"]
+                        if scen == "swapped-keys":
+                            skey, ekey = ch.keys["enc"], ch.keys["leaf"]
+                    kf = wr("sign.pem", pki.key_pem(skey[0], skey[1], password=pw_s, variant=ctx.variant))
+                    chainf = files["chain"]
+                    if scen == "one-cert-chain":
+                        chainf = wr("one.pem", X.pem("CERTIFICATE", ch.certs["leaf"]))
+                    if scen == "missing-key-file":
+                        kf = os.path.join(tmpd, "does-not-exist.pem").encode()
+                    c = obj("TLS_CTX")
+                    l.tls_ctx_init(c, const("TLS_protocol_tlcp") if tlcp else const("TLS_protocol_tls12"), const("TLS_server_mode"))
+                    use_s = pw_s if scen != "wrong-sign-password" else b"Wrong-pass-%d" % seed
+                    if tlcp:
+                        ef = wr("enc.pem", pki.key_pem(ekey[0], ekey[1], password=pw_e, variant=ctx.variant))
+                        use_e = pw_e if scen != "wrong-enc-password" else b"Wrong-pass-%d" % seed
+                        secrets["offered passwords"] = use_s + b" " + use_e
+                        l.tls_ctx_set_tlcp_server_certificate_and_keys(c, chainf, kf, Buf.of(use_s + b"\0"), ef, Buf.of(use_e + b"\0"))
+                    else:
+                        l.tls_ctx_set_certificate_and_key(c, chainf, kf, Buf.of(use_s + b"\0"))
+                    l.tls_ctx_cleanup(c)
                 elif op in ("pkcs8_open", "pkcs8_wrong_password"):
                     pw = b"Secret-pass-%d" % seed
                     secrets["password"] = pw
